@@ -347,18 +347,62 @@ def check(run: Run, prog: Program, model: Model, tier: str) -> None:
     if len(funcs) < 30:
         raise AnalysisError(f"generation scope has only {len(funcs)} functions")
 
-    # (1)+(2) entropy
+    # which generator does set_seed seed?  the module-level one (random.seed(arg)) or a private module/instance one
+    rnd = prog.cls("generation._random.Random")
+    ss = rnd.methods.get("set_seed")
+    if ss is None:
+        raise AnalysisError("Random.set_seed not found")
+    params = [a.arg for a in ss.node.args.args[1:]]
+    seeded: Optional[str] = None          # "module" | name of the private generator variable/attribute
+    for n in ast.walk(ss.node):
+        if isinstance(n, ast.Call) and n.args and isinstance(n.args[0], ast.Name) and n.args[0].id in params:
+            d = dotted(prog, ss.module, n.func, function_local_imports(ss.node))
+            if d == "random.seed":
+                seeded = "module"
+            elif isinstance(n.func, ast.Attribute) and n.func.attr == "seed":
+                base = n.func.value
+                name = base.id if isinstance(base, ast.Name) else (f"self.{base.attr}" if isinstance(base, ast.Attribute) else None)
+                if name is not None and _is_private_rng(prog, ss, base):
+                    seeded = name
+    if seeded is None:
+        run.violated("SET-SEED", "Random.set_seed", ss.loc,
+                     "set_seed does not seed a generator with its argument (neither random.seed(arg) nor <private Random>.seed(arg))",
+                     witness="Random().set_seed(1); a = fake(schema.int); Random().set_seed(1); b = fake(schema.int); a != b")
+    else:
+        run.holds("SET-SEED", "Random.set_seed", ss.loc,
+                  "seeds " + ("the module-level generator (random.seed)" if seeded == "module" else f"the private generator `{seeded}`"),
+                  nontrivial=True)
+    run.floor("SET-SEED", 1)
+
+    # (1)+(2) entropy: every draw must come from the seeded generator
     n_random = 0
     for fi, node, d, used in entropy_scan(prog, funcs):
         site = f"{fi.module.path}:{getattr(node, 'lineno', 0)}"
         construct = f"{fi.qualname}: {d}"
         if d.startswith("random.") and not d.startswith(("random.Random", "random.SystemRandom")):
+            if d == "random.seed":
+                continue
             n_random += 1
-            layering = fi.cls is None or fi.cls.name != "Random"
-            run.holds("SEEDED-ENTROPY", construct, site, "module-level random.* function: the generator set_seed seeds",
-                      nontrivial=layering)
-            if layering:
-                run.note("LAYERING", construct, site, "direct random.* call outside class Random (still seeded)")
+            if seeded in (None, "module"):
+                layering = fi.cls is None or fi.cls.name != "Random"
+                run.holds("SEEDED-ENTROPY", construct, site, "module-level random.* function: the generator set_seed seeds",
+                          nontrivial=layering)
+                if layering:
+                    run.note("LAYERING", construct, site, "direct random.* call outside class Random (still seeded)")
+            elif used:
+                run.violated("SEEDED-ENTROPY", construct, site,
+                             f"draws from the module-level generator, but set_seed seeds the private generator `{seeded}`",
+                             witness="two runs after Random().set_seed(k) differ wherever this draw is reached")
+            continue
+        if d.startswith("random.Random") and seeded not in (None, "module") and fi.name in ("__init__",) + tuple():
+            continue
+        if d.startswith(("random.Random", "random.SystemRandom")):
+            # creation of a generator object: fine iff it is THE seeded private generator (created once at import / __init__)
+            if seeded not in (None, "module") and d.startswith("random.Random") and fi.name == "__init__":
+                continue
+            run.violated("SEEDED-ENTROPY", construct, site,
+                         f"{d}() creates a generator that set_seed does not seed",
+                         witness="values drawn from it are not a function of the seed")
             continue
         if any(d == p or d.startswith(p) for p in ENTROPY_FORBIDDEN_PREFIX):
             ok_in = EXEMPT.get(d)
@@ -368,29 +412,27 @@ def check(run: Run, prog: Program, model: Model, tier: str) -> None:
                 run.note("SEEDED-ENTROPY", construct, site, "entropy read whose value is discarded")
             else:
                 run.violated("SEEDED-ENTROPY", construct, site,
-                             f"{d} is not drawn from the seeded module generator and {fi.name} is not an exempt method",
+                             f"{d} is not drawn from the seeded generator and {fi.name} is not an exempt method",
                              witness=f"two runs after Random().set_seed(k) differ wherever {fi.name} is reached")
+    # draws through a private generator object
+    n_priv = 0
+    for fi in funcs:
+        for n in ast.walk(fi.node):
+            if isinstance(n, ast.Call) and isinstance(n.func, ast.Attribute) and n.func.attr in DRAWS:
+                base = n.func.value
+                if _is_private_rng(prog, fi, base):
+                    name = base.id if isinstance(base, ast.Name) else f"self.{base.attr}"  # type: ignore
+                    site = f"{fi.module.path}:{n.lineno}"
+                    construct = f"{fi.qualname}: {name}.{n.func.attr}"
+                    n_priv += 1
+                    if name == seeded:
+                        run.holds("SEEDED-ENTROPY", construct, site, f"draw from the private generator `{name}` that set_seed seeds", nontrivial=True)
+                    else:
+                        run.violated("SEEDED-ENTROPY", construct, site,
+                                     f"draw from `{name}`, which is not the generator set_seed seeds ({seeded})",
+                                     witness="values drawn from it are not a function of the seed")
     run.floor("SEEDED-ENTROPY", 5)
     run.floor("EXEMPT-ENTROPY", 3)
-
-    # set_seed seeds the module generator with its argument
-    rnd = prog.cls("generation._random.Random")
-    ss = rnd.methods.get("set_seed")
-    if ss is None:
-        raise AnalysisError("Random.set_seed not found")
-    params = [a.arg for a in ss.node.args.args[1:]]
-    seeded = False
-    for n in ast.walk(ss.node):
-        if isinstance(n, ast.Call) and dotted(prog, ss.module, n.func, function_local_imports(ss.node)) == "random.seed":
-            if n.args and isinstance(n.args[0], ast.Name) and n.args[0].id in params:
-                seeded = True
-    if seeded:
-        run.holds("SET-SEED", "Random.set_seed", ss.loc, "random.seed(<its parameter>) seeds the module generator", nontrivial=True)
-    else:
-        run.violated("SET-SEED", "Random.set_seed", ss.loc,
-                     "set_seed does not seed the module-level generator that every draw uses",
-                     witness="Random().set_seed(1); a = fake(schema.int); Random().set_seed(1); b = fake(schema.int); a != b")
-    run.floor("SET-SEED", 1)
 
     # (3) order taint
     n_sets = 0
@@ -414,6 +456,26 @@ def check(run: Run, prog: Program, model: Model, tier: str) -> None:
 
     # positive fixture: the rules must fire on a tiny synthetic module
     fixture_selftest(run)
+
+
+DRAWS = {"randint", "randrange", "choice", "choices", "uniform", "random", "shuffle", "sample", "getrandbits", "gauss"}
+
+
+def _is_private_rng(prog: Program, fi: FuncInfo, base: ast.expr) -> bool:
+    """Is `base` a module-level name / self attribute bound to random.Random(...)?"""
+    if isinstance(base, ast.Name):
+        b = fi.module.bindings.get(base.id)
+        if b is not None and b.kind == "assign" and isinstance(b.node, ast.Call):
+            return dotted(prog, fi.module, b.node.func, {}) in ("random.Random",)
+        return False
+    if isinstance(base, ast.Attribute) and isinstance(base.value, ast.Name) and base.value.id == "self" and fi.cls is not None:
+        init = fi.cls.lookup("__init__")
+        if init is not None:
+            for n in ast.walk(init.node):
+                if isinstance(n, ast.Assign) and any(isinstance(t, ast.Attribute) and t.attr == base.attr for t in n.targets) \
+                        and isinstance(n.value, ast.Call) and dotted(prog, init.module, n.value.func, {}) == "random.Random":
+                    return True
+    return False
 
 
 def hidden_state(run: Run, prog: Program, ci: ClassInfo, rule: str) -> None:
